@@ -415,12 +415,17 @@ int c11_worker(uint64_t seed, uint64_t from, uint64_t to, uint64_t step, double 
 	return 0;
 }
 
-int c11_replay(const rt::JVal &j, bool) {
+int c11_replay(const rt::JVal &j, bool, bool quiet) {
 	Plan11 p;
 	if (!from_json(j, p)) { fprintf(stderr, "replay: bad C11 plan\n"); return 2; }
 	Result R = run(p);
-	print_result(0, p, R, false);
+	if (!quiet) print_result(0, p, R, false);
 	return 0;
+}
+
+std::string c11_genplan(uint64_t run_seed, uint64_t index, const std::string &tier, const std::string &mode) {
+	const bool threaded = mode == "threads";
+	return to_json(generate(run_seed, tier == "thorough", index == 0 && !threaded, threaded));
 }
 
 } // namespace gen
